@@ -2,6 +2,8 @@ package main
 
 import (
 	"go/ast"
+	"path/filepath"
+	"strings"
 )
 
 // genC05 writes Generated/C05Sum.v: the literals checksumFromHeader
@@ -9,15 +11,35 @@ import (
 // (the constant the function indexes header.PAXRecords with) and the prefix that
 // selects the base64 form (the literal of its strings.HasPrefix test).
 func genC05() {
-	g := newGen("C05Sum", "From Apko Require Import Base.Prelude.\nOpen Scope string_scope.")
-	const rel = "pkg/apk/apk/install.go"
+	g := newGen("C05Sum", "From Apko Require Import Base.Prelude.\nOpen Scope string_scope. Open Scope list_scope.")
+	// the three copies of checksumFromHeader: the one checkSums verifies with, the streaming installer's, the lazy installer's
+	sites := []struct{ coq, rel string }{
+		{"expandapk", "pkg/apk/expandapk/utility.go"},
+		{"install", "pkg/apk/apk/install.go"},
+		{"tarfs", "pkg/tarfs/fs.go"},
+	}
+	var rows []string
+	for i, st := range sites {
+		key, prefix := c05SumLiterals(st.rel)
+		if i == 0 {
+			g.def("pax_checksum_key", "string", coqStr(key), "the PAX record checksumFromHeader reads ("+st.rel+", the copy checkSums verifies with)")
+			g.def("checksum_b64_prefix", "string", coqStr(prefix), "the prefix that selects the base64 form of the record")
+		}
+		rows = append(rows, "("+coqStr(st.coq)+", ("+coqStr(key)+", "+coqStr(prefix)+"))")
+	}
+	g.def("checksum_sites", "list (string * (string * string))", "["+strings.Join(rows, "; ")+"]",
+		"key and prefix of every copy of checksumFromHeader (expandapk/utility.go, apk/install.go, tarfs/fs.go): the model has ONE function, Properties/C05.v demands that they agree")
+	g.write()
+}
+
+// c05SumLiterals reads, from the function checksumFromHeader of one file, the key of its one map lookup (a string literal
+// or a constant of its package) and the one literal prefix of its strings.HasPrefix / CutPrefix / TrimPrefix calls.
+func c05SumLiterals(rel string) (string, string) {
 	fd := findFunc(rel, "", "checksumFromHeader")
 	if fd == nil {
 		fail("%s: no function checksumFromHeader", rel)
-		g.write()
-		return
+		return "", ""
 	}
-	// the key: the index expression of the one map lookup `x, ok := m[KEY]`
 	var key ast.Expr
 	var prefixes []string
 	ast.Inspect(fd, func(n ast.Node) bool {
@@ -29,7 +51,6 @@ func genC05() {
 				}
 			}
 		case *ast.CallExpr:
-			// the prefix test in any of its library spellings (HasPrefix + TrimPrefix, CutPrefix): one distinct literal
 			if f := exprText(v.Fun); (f == "strings.HasPrefix" || f == "strings.CutPrefix" || f == "strings.TrimPrefix") && len(v.Args) == 2 {
 				if s, ok := strLit(v.Args[1]); ok {
 					dup := false
@@ -48,9 +69,33 @@ func genC05() {
 	if key != nil {
 		if keyStr, ok = strLit(key); !ok {
 			if id, isID := key.(*ast.Ident); isID {
-				keyStr, ok = strLit(findValue("pkg/apk/apk/const.go", id.Name))
-				if !ok {
-					keyStr, ok = strLit(findValue(rel, id.Name))
+				// a constant declared in some file of the same package
+				dir := rel[:strings.LastIndex(rel, "/")]
+				matches, _ := filepath.Glob(filepath.Join(*repo, dir, "*.go"))
+				for _, m := range matches {
+					if strings.HasSuffix(m, "_test.go") {
+						continue
+					}
+					if f := load(dir + "/" + filepath.Base(m)); f != nil {
+						for _, d := range f.Decls {
+							gd, isGen := d.(*ast.GenDecl)
+							if !isGen {
+								continue
+							}
+							for _, sp := range gd.Specs {
+								if vs, isVal := sp.(*ast.ValueSpec); isVal {
+									for i, nm := range vs.Names {
+										if nm.Name == id.Name && i < len(vs.Values) {
+											keyStr, ok = strLit(vs.Values[i])
+										}
+									}
+								}
+							}
+						}
+					}
+					if ok {
+						break
+					}
 				}
 			}
 		}
@@ -60,9 +105,7 @@ func genC05() {
 	}
 	if len(prefixes) != 1 {
 		fail("%s: checksumFromHeader: expected one literal prefix in its strings.HasPrefix / CutPrefix / TrimPrefix calls, found %d", rel, len(prefixes))
-		prefixes = []string{""}
+		return keyStr, ""
 	}
-	g.def("pax_checksum_key", "string", coqStr(keyStr), "the PAX record checksumFromHeader reads, "+g.pos(fd))
-	g.def("checksum_b64_prefix", "string", coqStr(prefixes[0]), "the prefix that selects the base64 form of the record")
-	g.write()
+	return keyStr, prefixes[0]
 }
